@@ -7,6 +7,7 @@ import (
 	"flag"
 	"fmt"
 	"os"
+	"os/exec"
 	"path/filepath"
 	"strings"
 )
@@ -14,9 +15,27 @@ import (
 var profiles = map[string]Profile{
 	"basic": {Name: "basic", Clients: 2, Resources: 3, Stimuli: 14, Refs: false, Unsub: true, Clean: true},
 	"refs":  {Name: "refs", Clients: 2, Resources: 4, Stimuli: 18, Refs: true, Collections: true, Unsub: true, Clean: true},
-	"churn": {Name: "churn", Clients: 3, Resources: 4, Stimuli: 22, Refs: true, Collections: true, Unsub: true, Faults: true, Disconnect: true, Evict: true, Deletes: true, Clean: true},
-	"wild":  {Name: "wild", Clients: 3, Resources: 4, Stimuli: 24, Refs: true, Collections: true, Unsub: true, Gets: true, Faults: true, Disconnect: true, Evict: true, Deletes: true},
+	"churn": {Name: "churn", Clients: 3, Resources: 4, Stimuli: 22, Refs: true, Collections: true, Unsub: true, Faults: true, Disconnect: true, Evict: true, Deletes: true, Clean: true, Endgame: true},
+	"wild":  {Name: "wild", Clients: 3, Resources: 4, Stimuli: 24, Refs: true, Collections: true, Unsub: true, Gets: true, Faults: true, Disconnect: true, Evict: true, Deletes: true, Endgame: true},
+	"long":  {Name: "long", Clients: 2, Resources: 3, Stimuli: 14, Unsub: true, Gets: false, Clean: true, LongRids: true, Endgame: true},
+	"access": {Name: "access", Clients: 2, Resources: 3, Stimuli: 22, Unsub: true, Reaccess: true, Tokens: true, Calls: true, Faults: true, Denials: true, Clean: true},
+	"reset": {Name: "reset", Clients: 2, Resources: 4, Stimuli: 22, Refs: true, Collections: true, Unsub: true, Resets: true, Clean: true},
 	"gets":  {Name: "gets", Clients: 2, Resources: 4, Stimuli: 18, Refs: true, Collections: true, Unsub: true, Gets: true, Faults: true, Clean: true},
+}
+
+func runOne(s int64, p Profile, out string) {
+	run, stall := Explore(s, p)
+	f, _ := os.Create(filepath.Join(out, fmt.Sprintf("%s-%d.trace", p.Name, s)))
+	w := bufio.NewWriter(f)
+	w.WriteString(strings.Join(run.Lines, "\n"))
+	w.WriteString("\n")
+	if stall != nil {
+		w.WriteString("STALL\t" + fmt.Sprintf("%x", stall.Error()) + "\n")
+	}
+	w.Flush()
+	f.Close()
+	os.WriteFile(filepath.Join(out, fmt.Sprintf("%s-%d.history.json", p.Name, s)), historyJSON(s, p, run), 0o644)
+	fmt.Printf("STEPS\t%d\n", len(run.Actions))
 }
 
 func main() {
@@ -25,6 +44,8 @@ func main() {
 	prof := flag.String("profile", "basic", "exploration profile")
 	out := flag.String("out", "traces", "output directory")
 	replay := flag.String("replay", "", "history.json to re-execute instead of exploring")
+	child := flag.Int64("child", -1, "run the single history with this history seed and exit (used by the parent process)")
+	jobs := flag.Int("jobs", 12, "parallel child processes")
 	flag.Parse()
 	if *replay != "" {
 		os.MkdirAll(*out, 0o755)
@@ -35,9 +56,8 @@ func main() {
 			f.WriteString("STALL\t" + fmt.Sprintf("%x", stall.Error()) + "\n")
 		}
 		f.Close()
-		run.W.Close()
 		fmt.Printf("HISTORIES\t1\tSTEPS\t%d\n", len(run.Actions))
-		return
+		os.Exit(0)
 	}
 	p, ok := profiles[*prof]
 	if !ok {
@@ -45,22 +65,54 @@ func main() {
 		os.Exit(2)
 	}
 	os.MkdirAll(*out, 0o755)
-	steps := 0
-	for i := 0; i < *n; i++ {
-		s := *seed*100003 + int64(i)
-		run, stall := Explore(s, p)
-		f, _ := os.Create(filepath.Join(*out, fmt.Sprintf("%s-%d.trace", p.Name, s)))
-		w := bufio.NewWriter(f)
-		w.WriteString(strings.Join(run.Lines, "\n"))
-		w.WriteString("\n")
-		if stall != nil {
-			w.WriteString("STALL\t" + fmt.Sprintf("%x", stall.Error()) + "\n")
-		}
-		w.Flush()
-		f.Close()
-		os.WriteFile(filepath.Join(*out, fmt.Sprintf("%s-%d.history.json", p.Name, s)), historyJSON(s, p, run), 0o644)
-		steps += len(run.Actions)
-		run.W.Close()
+	if *child >= 0 {
+		// one history per process: a gateway panic kills only this history, and no goroutine of an earlier
+		// gateway instance can interfere
+		runOne(*child, p, *out)
+		os.Exit(0)
 	}
-	fmt.Printf("HISTORIES\t%d\tSTEPS\t%d\n", *n, steps)
+	type res struct {
+		steps   int
+		crashed bool
+	}
+	seeds := make(chan int64, *n)
+	results := make(chan res, *n)
+	for i := 0; i < *n; i++ {
+		seeds <- *seed*100003 + int64(i)
+	}
+	close(seeds)
+	for j := 0; j < *jobs; j++ {
+		go func() {
+			for s := range seeds {
+				cmd := exec.Command(os.Args[0], "-child", fmt.Sprint(s), "-profile", *prof, "-out", *out)
+				outb, err := cmd.CombinedOutput()
+				r := res{}
+				if err != nil {
+					r.crashed = true
+					txt := string(outb)
+					if len(txt) > 6000 {
+						txt = txt[:6000]
+					}
+					os.WriteFile(filepath.Join(*out, fmt.Sprintf("%s-%d.trace", p.Name, s)), []byte("CRASH\t"+fmt.Sprintf("%x", txt)+"\n"), 0o644)
+					os.WriteFile(filepath.Join(*out, fmt.Sprintf("%s-%d.history.json", p.Name, s)), []byte(fmt.Sprintf(`{"seed":%d,"profile":{"Name":%q},"crashed":true}`, s, p.Name)), 0o644)
+				} else {
+					for _, l := range strings.Split(string(outb), "\n") {
+						if strings.HasPrefix(l, "STEPS\t") {
+							fmt.Sscanf(l[6:], "%d", &r.steps)
+						}
+					}
+				}
+				results <- r
+			}
+		}()
+	}
+	steps, crashes := 0, 0
+	for i := 0; i < *n; i++ {
+		r := <-results
+		steps += r.steps
+		if r.crashed {
+			crashes++
+		}
+	}
+	fmt.Printf("HISTORIES\t%d\tSTEPS\t%d\tCRASHES\t%d\n", *n, steps, crashes)
 }
